@@ -7,7 +7,7 @@ from fractions import Fraction
 
 from ..gen.ledger import Opts, gen_ledger, render_dsl
 from ..probe import probe
-from ..util import rng_for, sha, ZERO, TOL_10DP
+from ..util import cap_viols, rng_for, sha, ZERO, TOL_10DP
 from . import ledger_core as lc
 
 PROP = "C09"
@@ -145,7 +145,7 @@ def run_proj(desc):
         txs, _f = gen_ledger(rng, opts)
         # make tickers collide on dates in several stateful mechanisms: already interleaved by date
         n_eval += judge_proj(txs, cnt, viols, hashes, samples)
-    return {"evaluations": n_eval, "nontrivial_hashes": hashes, "counters": cnt, "violations": viols[:20], "samples": samples}
+    return {"evaluations": n_eval, "nontrivial_hashes": hashes, "counters": cnt, "violations": cap_viols(viols), "samples": samples}
 
 
 def case_variant(rng, s):
@@ -224,7 +224,7 @@ def run_case(desc):
                     break
         if len(samples) < 1:
             samples.append({"mixed_case_dsl": varied[:6]})
-    return {"evaluations": n_eval, "nontrivial_hashes": hashes, "counters": cnt, "violations": viols[:20], "samples": samples}
+    return {"evaluations": n_eval, "nontrivial_hashes": hashes, "counters": cnt, "violations": cap_viols(viols), "samples": samples}
 
 
 def run_shard(desc):
